@@ -87,6 +87,7 @@ struct PoolEngine : Engine {
 		knobs["realloc"] = kn.chance(1, 3) ? 1 : 0;
 		p["knobs"] = knobs;
 		DocOpts dopt; dopt.images = true;
+		if (w.chance(1, 4)) dopt.email_heavy = true;
 		// per-run document pool
 		Json docs = Json::array();
 		int ndocs = (int)w.range(1, 4);
